@@ -310,6 +310,10 @@ def path_pool(d):
         ("dir", lambda: S(os.path.join(d, "sub"))),
         ("new", lambda: S(os.path.join(d, "created_by_attack"))),
         ("passwd", lambda: S("/etc/passwd")),
+        # a callback, for functions that take one before they touch a path
+        ("callback", lambda: core.ckl.parser.parse_script(
+            "fn(x) x", "cb").evaluate(
+                core.ckl.functions.get_none_environment())),
         ("dot", lambda: S(".")),
         ("sh", lambda: S("sh")),
         ("script", lambda: S(os.path.join(d, "script.ckl"))),
@@ -376,8 +380,10 @@ def reachable_functions(session, extra=None):
     return funcs, steps
 
 
-def invoke_all(agg, session, fn, label, pool, maxar, origin):
-    """call fn with every argument tuple of arity <= maxar from the pool"""
+def invoke_all(agg, session, fn, label, pool, maxar, origin, shadow=False):
+    """call fn with every argument tuple of arity <= maxar from the pool;
+    shadow=True: from a scope in which the names of the OS natives are
+    ordinary (harmless) variables, as a program is free to define them"""
     try:
         names = fn.getArgNames()
     except Exception:
@@ -388,6 +394,9 @@ def invoke_all(agg, session, fn, label, pool, maxar, origin):
     for k in range(0, n + 1):
         for combo in itertools.product(pool, repeat=k):
             env = session.interp.environment.newEnv()
+            if shadow:
+                for osn in OS_NAMES:
+                    env.put(osn, core.ckl.values.NULL)
             env.put("f", fn)
             for nm, (_, mk) in zip("abc", combo):
                 env.put(nm, mk())
@@ -408,7 +417,7 @@ def invoke_all(agg, session, fn, label, pool, maxar, origin):
                     {"what": "os-access-by-reachable-function",
                      "function": label, "event": EVENTS[0][0]},
                     {"kind": "invoke", "origin": origin, "function": label,
-                     "args": [c[0] for c in combo]},
+                     "args": [c[0] for c in combo], "shadow": shadow},
                     "no file/process access", list(EVENTS[:3]),
                     size=len(combo))
                 return
@@ -495,6 +504,9 @@ def check_program(agg, session, src, origin, cfg, pool, maxar, canary,
         swept.add(k2)
         invoke_all(agg, session, fn, k2[1], pool, maxar,
                    src if host is None else src + "  [host env: %s]" % host)
+        if origin == "baseline":
+            invoke_all(agg, session, fn, k2[1], pool, maxar, src,
+                       shadow=True)
         agg.count("functions_swept")
     if canary_state(canary) != CANARY0[0]:
         agg.violation({"what": "canary-changed",
@@ -589,7 +601,9 @@ def replay(case, verbose=False):
         if host is None and "  [host env: " in src:
             src, _, h = src.partition("  [host env: ")
             host = h.rstrip("]")
-        check_program(a, s, src, "replay", cfg, pool, 2, d, host=host)
+        check_program(a, s, src,
+                      "baseline" if case.get("shadow") else "replay", cfg,
+                      pool, 2, d, host=host)
     if verbose:
         for k, (sz, v) in a.viol.items():
             print(v)
@@ -660,7 +674,7 @@ def main(tier, seed):
         progs.append(("flag", f"do {fp} catch all NULL end; " + binds, True))
         progs.append(("flag-bare", fp, True))
     maxar = 2 if tier == "quick" else 3
-    npool = 8 if tier == "quick" else 11
+    npool = 9 if tier == "quick" else 12
     jobs = [{"baseline": True, "programs": [], "maxar": maxar,
              "pool": npool}]
     for c in core.chunked(progs, core.NPROC * 2):
